@@ -333,7 +333,8 @@ def coq_property(pid, timeout=1500):
             cur += "\n" + line
     if cur is not None:
         blocks.append(cur.strip())
-    printed = re.findall(r"Print Assumptions\s+(\w+)\s*\.", text)
+    nocomment = re.sub(r"\(\*.*?\*\)", "", text, flags=re.S)
+    printed = re.findall(r"^\s*Print Assumptions\s+(\w+)\s*\.", nocomment, re.M)
     amap = dict(zip(printed, blocks))
     for t in thms:
         res["theorems"].append({"name": t, "ok": True, "assumptions": amap.get(t)})
